@@ -79,14 +79,24 @@ static void add_resource(char *rest) {
     if (eq) *eq = 0;
     nn = unhex(t, nb, sizeof(nb));
     if (eq) vn = unhex(eq + 1, vb, sizeof(vb));
-    coap_add_attr(r, coap_new_str_const(nb, nn), eq ? coap_new_str_const(vb, vn) : NULL,
-                  COAP_ATTR_FLAGS_RELEASE_NAME | COAP_ATTR_FLAGS_RELEASE_VALUE);
+    {
+      /* the four ownership conventions of coap_add_attr() in turn: what the caller keeps is scribbled over afterwards - the listing must not follow it */
+      static int turn;
+      int fl2 = turn++ & 3, af = ((fl2 & 1) ? 0 : COAP_ATTR_FLAGS_RELEASE_NAME) | ((fl2 & 2) ? 0 : COAP_ATTR_FLAGS_RELEASE_VALUE);
+      coap_str_const_t ns, vs;
+      ns.s = nb; ns.length = nn;
+      vs.s = vb; vs.length = vn;
+      coap_add_attr(r, (af & COAP_ATTR_FLAGS_RELEASE_NAME) ? coap_new_str_const(nb, nn) : &ns,
+                    !eq ? NULL : (af & COAP_ATTR_FLAGS_RELEASE_VALUE) ? coap_new_str_const(vb, vn) : &vs, af);
+    }
     fprintf(m, "%s{\"name\":", first ? "" : ",");
     first = 0;
     arr(m, nb, nn);
     fputs(",\"val\":", m);
     arr(m, vb, vn);
     fprintf(m, ",\"hasval\":%s}", eq ? "true" : "false");
+    memset(nb, 'Z', sizeof(nb));
+    memset(vb, 'Z', sizeof(vb));
   }
   fputs("]}", m);
   fclose(m);
